@@ -133,6 +133,17 @@ def decide(ctx, hp, vp):
                 r2, w2 = verify(H, derive_result="wrong")
                 if r2 != ("return", False):
                     out["verdict"].append({"digest differs": repr(r2)[:80]})
+        # --- the whole password is hashed, whatever its length (a truncated pre-hash makes long passwords that share a prefix equal)
+        long_pw = bytes((i * 7 + 3) % 251 for i in range(5000))
+        wl = _World()
+        out["cases"] += 1
+        hl = wl.evaluator(ctx, hp).call([long_pw])
+        if wl.updates != [long_pw]:
+            out["roundtrip"].append({"hash_password feeds the hash object": "%d of %d password bytes" % (sum(len(u) for u in wl.updates if isinstance(u, bytes)), len(long_pw))})
+        if hl[0] == "return" and isinstance(hl[1], str):
+            rl, wl2 = verify(hl[1], pw=long_pw)
+            if wl2.updates != [long_pw]:
+                out["roundtrip"].append({"verify_password feeds the hash object": "%d of %d password bytes" % (sum(len(u) for u in wl2.updates if isinstance(u, bytes)), len(long_pw))})
         # --- a failure inside the key derivation is not a verdict: it must leave the function (no broad handler returns False)
         r3_, w3_ = verify(make(), derive_result="library failure")
         if r3_[0] != "raise" or r3_[1] != "UnsupportedAlgorithm":
